@@ -888,6 +888,17 @@ func stdoutClass(kind string) string {
 	return kind
 }
 
+// errText renders an error for a message; an Error method that panics (a typed error built without
+// its inner error) must not take the harness down.
+func errText(err error) (s string) {
+	defer func() {
+		if p := recover(); p != nil {
+			s = fmt.Sprintf("(%T: Error() panicked: %v)", err, p)
+		}
+	}()
+	return short(err.Error())
+}
+
 func short(s string) string {
 	if len(s) > 300 {
 		return s[:300] + fmt.Sprintf("...(%d bytes)", len(s))
@@ -921,7 +932,7 @@ func judgeOutcome(c *Case, r *result) (string, string) {
 				return "C17:cap:overcap-error-returned", fmt.Sprintf("a structured error whose message has %d bytes (> cap %d) was returned in full: the host buffered more than the cap", c.PadStderr, outputCap())
 			}
 			if et == "untyped" {
-				return "C17:error-mapping:unstructured-not-typed", fmt.Sprintf("over-cap stderr: error %T %q is neither the structured error nor a typed executable/malformed-plugin error", r.err, short(r.err.Error()))
+				return "C17:error-mapping:unstructured-not-typed", fmt.Sprintf("over-cap stderr: error %T %q is neither the structured error nor a typed executable/malformed-plugin error", r.err, errText(r.err))
 			}
 			return "", ""
 		}
@@ -933,7 +944,7 @@ func judgeOutcome(c *Case, r *result) (string, string) {
 		if c.Err == "structured" {
 			re, ok := asRequestError(r.err)
 			if !ok {
-				return "C17:error-mapping:structured-error-not-returned", fmt.Sprintf("the failing plugin printed the structured error %s, the call returned %T %q", short(c.Stderr), r.err, short(r.err.Error()))
+				return "C17:error-mapping:structured-error-not-returned", fmt.Sprintf("the failing plugin printed the structured error %s, the call returned %T %q", short(c.Stderr), r.err, errText(r.err))
 			}
 			msg := ""
 			if re.Err != nil {
@@ -945,7 +956,7 @@ func judgeOutcome(c *Case, r *result) (string, string) {
 			return "", ""
 		}
 		if et != "PluginMalformedError" && et != "PluginExecutableFileError" {
-			return "C17:error-mapping:unstructured-not-typed", fmt.Sprintf("failing plugin with stderr kind %s (%q): error %T %q is not a typed executable/malformed-plugin error", c.Err, short(c.Stderr), r.err, short(r.err.Error()))
+			return "C17:error-mapping:unstructured-not-typed", fmt.Sprintf("failing plugin with stderr kind %s (%q): error %T %q is not a typed executable/malformed-plugin error", c.Err, short(c.Stderr), r.err, errText(r.err))
 		}
 		return "", ""
 	case overOut:
@@ -979,7 +990,7 @@ func judgeOutcome(c *Case, r *result) (string, string) {
 			if c.Cmd == "get-plugin-metadata" {
 				site = "metadata"
 			}
-			return "C17:valid-reply-rejected:" + site, fmt.Sprintf("exit 0 with the valid reply %s (stderr kind %s): %s returned %T %q", short(c.Stdout), c.Err, c.Cmd, r.err, short(r.err.Error()))
+			return "C17:valid-reply-rejected:" + site, fmt.Sprintf("exit 0 with the valid reply %s (stderr kind %s): %s returned %T %q", short(c.Stdout), c.Err, c.Cmd, r.err, errText(r.err))
 		}
 		return diffKey(c, r)
 	}
@@ -1296,14 +1307,16 @@ func TestC17_Cap(t *testing.T) {
 	}
 	rec.Set("output_cap", outputCap())
 	limit := uint64(allocFactor * outputCap())
+	var maxAlloc int64
 	for _, c := range cases {
 		runtime.GC()
 		r := runCase(t, c)
 		record(rec, c, r)
 		t.Logf("cap case out=%s err=%s cmd=%s exit=%d kill=%v: %v, alloc %d MiB, outcome %s", c.Out, c.Err, c.Cmd, c.Exit, c.Kill,
 			r.elapsed.Round(time.Millisecond), r.alloc>>20, errType(r.err))
-		if r.alloc>>20 > 0 {
-			rec.Set("max_alloc_mib_over_cap_call", int64(r.alloc>>20))
+		if a := int64(r.alloc >> 20); a > maxAlloc {
+			maxAlloc = a
+			rec.Set("max_alloc_mib_over_cap_call", maxAlloc)
 		}
 		if c.Out == "valid-large" {
 			c2 := *c
